@@ -113,6 +113,55 @@ fn count_lists(k: usize, max_len: usize) -> u64 {
     crate::dom::count_strings(k, max_len)
 }
 
+const LONG_PATS: [&str; 4] = ["ab", "a", "a !x", "b$"];
+
+struct Tagged<'a>(usize, &'a str);
+impl AsRef<str> for Tagged<'_> {
+    fn as_ref(&self) -> &str {
+        self.1
+    }
+}
+
+/// match_list over a list of `n` items drawn from a 7-string pool with many equal scores
+fn long_list_case(ptxt: &str, cname: &str, cfg: &Config, n: usize, stride: usize, acc: &mut Acc) {
+    let pool: [&str; 7] = ["ab", "a/b", "xaxb", "b", "Ab", "a b", "zzz"];
+    let mut shared = Matcher::new(cfg.clone());
+    let pat = Pattern::parse(ptxt, CaseMatching::Smart, Normalization::Smart);
+    let single = Atom::parse(ptxt, CaseMatching::Smart, Normalization::Smart);
+    let pool_scores: Vec<Option<u32>> = pool
+        .iter()
+        .map(|s| {
+            let mut b = Vec::new();
+            pat.score(Utf32Str::new(s, &mut b), &mut Matcher::new(cfg.clone()))
+        })
+        .collect();
+    let idxs: Vec<usize> = (0..n).map(|i| (i * stride + i / 7) % pool.len()).collect();
+    acc.evaluations += 1;
+    acc.states += 1;
+    acc.transitions += 1;
+    if n > 20 {
+        acc.nontrivial += 1;
+    }
+    let scored: Vec<(usize, Option<u32>)> = idxs.iter().enumerate().map(|(pos, &p)| (pos, pool_scores[p])).collect();
+    let want = stable_sorted(&scored);
+    let got = pat.match_list(idxs.iter().enumerate().map(|(pos, &p)| Tagged(pos, pool[p])), &mut shared);
+    let got_v: Vec<(usize, u32)> = got.iter().map(|(t, s)| (t.0, *s)).collect();
+    if got_v != want {
+        acc.violation("C15/Pattern::match_list/long_list", "match_list on a long list is not the stably sorted list of matching inputs", || {
+            json!({"pattern": ptxt, "config": cname, "items": n, "stride": stride, "first_difference_at": got_v.iter().zip(want.iter()).position(|(a, b)| a != b)})
+        });
+    }
+    if pat.atoms.len() == 1 {
+        let got = single.match_list(idxs.iter().enumerate().map(|(pos, &p)| Tagged(pos, pool[p])), &mut shared);
+        let got_v: Vec<(usize, u32)> = got.iter().map(|(t, s)| (t.0, *s as u32)).collect();
+        if got_v != want {
+            acc.violation("C15/Atom::match_list/long_list", "Atom::match_list on a long list is not the stably sorted list of matching inputs", || {
+                json!({"pattern": ptxt, "config": cname, "items": n, "stride": stride})
+            });
+        }
+    }
+}
+
 fn stable_sorted<T: Clone, S: Copy + Ord>(items: &[(T, Option<S>)]) -> Vec<(T, S)> {
     // boring reference: repeated selection of the first maximal element
     let mut rest: Vec<(T, S)> = items.iter().filter_map(|(t, s)| s.map(|s| (t.clone(), s))).collect();
@@ -277,6 +326,23 @@ pub fn run(tier: &str) -> ! {
     });
     rep.acc.merge(acc);
 
+    // match_list on long input lists with interleaved ties (the stability of the sort only shows
+    // beyond the small-slice fast paths of the sorting routine): every length 0..=96 and 200, 1000
+    {
+        let mut acc = Acc::new();
+        for (cname, cfg) in &cfgs {
+            for ptxt in LONG_PATS {
+                let lens: Vec<usize> = (0..=96).chain([200, 1000]).collect();
+                for &n in &lens {
+                    for stride in [1usize, 3, 5] {
+                        long_list_case(ptxt, cname, cfg, n, stride, &mut acc);
+                    }
+                }
+            }
+        }
+        rep.acc.merge(acc);
+    }
+
     // multi-column patterns: every pair of column texts x every pair of haystacks
     let mut acc = Acc::new();
     for (cname, cfg) in &cfgs {
@@ -343,6 +409,10 @@ pub fn replay_case(c: &Value, acc: &mut Acc) {
     let texts: Vec<String> = c["atoms"].as_array().map(|a| a.iter().filter_map(|x| x.as_str().map(|s| s.to_owned())).collect()).unwrap_or_default();
     let atoms: Vec<Atom> = texts.iter().map(|t| Atom::parse(t, CaseMatching::Smart, Normalization::Smart)).collect();
     let cfg = if c["config"].as_str() == Some("match_paths") { Config::DEFAULT.match_paths() } else { Config::DEFAULT };
+    if let (Some(p), Some(n), Some(st)) = (c["pattern"].as_str(), c["items"].as_u64(), c["stride"].as_u64()) {
+        long_list_case(p, c["config"].as_str().unwrap_or("default"), &cfg, n as usize, st as usize, acc);
+        return;
+    }
     let Some(h) = c["haystack"].as_str() else {
         // match_list / multi-column cases carry other keys; they are re-judged by a full run
         acc.count("case kinds not replayed individually (match_list, multi-column)", 1);
